@@ -7,12 +7,28 @@ From Lithium Require Import PyBase TcRecord Testcase Driver TraceSpec DriverProo
 Import ListNotations.
 Open Scope Z_scope.
 
+(* The file is restored whenever the test raised (e = None), or at least one candidate had been
+   tested, or nothing was ever written.  The single case left out - a strategy that writes the
+   testcase file ITSELF (RawWrite) and then raises before any of its candidates was tested -
+   is genuinely not restored by the code (Lithium.testcase_written is only set by
+   Lithium.interesting); see C02_abort_restores_unrestricted_refuted.  No shipped strategy can
+   reach it: the only raw writer, minimize-collapse-brace, writes at the end of a sweep, i.e.
+   after its first candidate, which is never de-duplicated (C02_minimize_like_restores). *)
 Theorem C02_abort_restores :
   forall S (strat : strategy S) verdict fuel tc0 file0 e w,
     content tc0 = file0 ->
     run strat verdict fuel tc0 file0 = Aborted e w ->
-    w_file w = last_accepted (chron w) file0 /\ hooks_ok (chron w).
-Proof. exact run_abort_restores. Qed.
+    (e = None \/ 1 < n_tests (chron w) \/ no_writes (chron w) ->
+     w_file w = last_accepted (chron w) file0) /\
+    hooks_ok (chron w).
+Proof. exact run_abort_restores_corrected. Qed.
+
+Theorem C02_abort_restores_unrestricted_refuted :
+  ~ (forall S (strat : strategy S) verdict fuel tc0 file0 e w,
+       content tc0 = file0 ->
+       run strat verdict fuel tc0 file0 = Aborted e w ->
+       w_file w = last_accepted (chron w) file0 /\ hooks_ok (chron w)).
+Proof. exact run_abort_restores_counterexample. Qed.
 
 (* hooks are also exactly-once on normal termination *)
 Theorem C02_hooks_finished :
@@ -31,5 +47,6 @@ Theorem C02_kill_tempdir :
 Proof. exact kill_tempdir. Qed.
 
 Print Assumptions C02_abort_restores.
+Print Assumptions C02_abort_restores_unrestricted_refuted.
 Print Assumptions C02_hooks_finished.
 Print Assumptions C02_kill_tempdir.
